@@ -421,4 +421,12 @@ def c04_short_prefix(keep=1, records=1):
     want = [5 + i for i in range(records - 1)]
     return {"violates": out != want, "detail": f"{keep} of 4 length bytes of the last of {records} frame(s) written: read back {out!r}, ended {end}; completely written: {want!r}"}
 
-CALLS = {"c04_extra_bytes": c04_extra_bytes, "c04_short_prefix": c04_short_prefix, "c04_gz_flushpoint": c04_gz_flushpoint, "c04_large_values": c04_large_values, "c04_roundtrip": c04_roundtrip, "c04_cut": c04_cut, "c04_unknown_identifier": c04_unknown_identifier, "c04_fail": c04_fail, "c04_sweep": c04_sweep, "c04_model_conformance": c04_model_conformance}
+
+def c04_equal_frames_cut(cut_back=1):
+    D = _descs()
+    r = D[0](n=5, s="same")
+    data, ends = _write_stream([r, D[0](n=5, s="same", _generated=r._generated)])
+    out, end = _read_all(io.BytesIO(data[: len(data) - cut_back]))
+    return {"violates": len(out) != 1, "detail": f"two equal record frames, the file ends {cut_back} byte(s) early: yielded {len(out)} record(s), ended {end}"}
+
+CALLS = {"c04_equal_frames_cut": c04_equal_frames_cut, "c04_extra_bytes": c04_extra_bytes, "c04_short_prefix": c04_short_prefix, "c04_gz_flushpoint": c04_gz_flushpoint, "c04_large_values": c04_large_values, "c04_roundtrip": c04_roundtrip, "c04_cut": c04_cut, "c04_unknown_identifier": c04_unknown_identifier, "c04_fail": c04_fail, "c04_sweep": c04_sweep, "c04_model_conformance": c04_model_conformance}
